@@ -37,8 +37,30 @@ func c14FuncSrc(p *Pkg, name string) (string, error) {
 	if err != nil {
 		return "", err
 	}
-	// normalise whitespace
-	return strings.Join(strings.Fields(buf.String()), " "), nil
+	// drop line comments (outside string literals), normalise whitespace
+	var lines []string
+	for _, l := range strings.Split(buf.String(), "\n") {
+		inStr := byte(0)
+		for i := 0; i < len(l); i++ {
+			c := l[i]
+			if inStr != 0 {
+				if c == '\\' && inStr != '`' {
+					i++
+				} else if c == inStr {
+					inStr = 0
+				}
+				continue
+			}
+			if c == '"' || c == '`' || c == '\'' {
+				inStr = c
+			} else if c == '/' && i+1 < len(l) && l[i+1] == '/' {
+				l = l[:i]
+				break
+			}
+		}
+		lines = append(lines, l)
+	}
+	return strings.Join(strings.Fields(strings.Join(lines, "\n")), " "), nil
 }
 
 func c14LeanString(s string) string { return strconv.Quote(s) }
